@@ -200,7 +200,49 @@ def scan_sites():
                     raise TranslatorError(f"{rel}:{node.lineno}: `label < hi` without the matching `label >= lo AND`")
     if nrange < 3:
         raise TranslatorError(f"expected at least 3 half-open label ranges in SQL texts, found {nrange}")
+    _scan_label_string_functions()
+    # every function the property names must still select by one of the recognised idioms: a site that
+    # silently disappears (its idiom rewritten into something the scans above do not look for) fails closed
+    have = {name.split(":", 1)[1].split(".")[-1] for name, _ in sites}
+    missing = sorted(set(REQUIRED_SITE_FUNCS) - have)
+    if missing:
+        raise TranslatorError(f"no recognised prefix idiom left in: {missing}")
     return sites
+
+
+REQUIRED_SITE_FUNCS = ["_find_owning_static_tree", "register_static_tree", "relevant_paths_under",
+                       "has_regular_output_under", "_is_justified_without_node", "search_matching_paths", "initialize"]
+
+# SQL string functions / operators that can express "starts with" or "contains" on a label
+_STRING_FUNCS = re.compile(r"\b(instr|ltrim|rtrim|trim|replace|substring|unicode|hex|printf|format|regexp|match|like|glob)\s*\(", re.I)
+
+
+def _scan_label_string_functions():
+    """Any SQL text in stepup/core that applies a string function other than the recognised substr idiom to a
+    label (instr, trim family, replace, `||` concatenation, function-call forms of LIKE/GLOB, REGEXP/MATCH)
+    is a selection on paths this translator does not understand: fail closed."""
+    for path in sorted((REPO / CORE).glob("*.py")):
+        if path.name in ("browse.py",):
+            continue
+        rel = f"{CORE}/{path.name}"
+        tree = parse_module(rel)
+        for node in ast.walk(tree):
+            if not (isinstance(node, ast.Constant) and isinstance(node.value, str)):
+                continue
+            txt = node.value
+            if not re.search(r"\blabel\b", txt) or not re.search(r"\b(SELECT|WHERE|AND|JOIN|UPDATE|DELETE)\b", txt):
+                continue
+            if len(txt) > 400 and "\n\n" in txt and "SELECT" not in txt:
+                continue  # prose
+            sql = "\n".join(l.split("--", 1)[0] for l in txt.splitlines())
+            m = _STRING_FUNCS.search(sql)
+            if m:
+                raise TranslatorError(f"{rel}:{node.lineno}: SQL string function {m.group(1)}() next to a label: "
+                                      f"{' '.join(sql.split())[:90]!r}")
+            if re.search(r"\blabel\s*\|\||\|\|\s*(\w+\.)?label\b", sql):
+                raise TranslatorError(f"{rel}:{node.lineno}: label concatenated in SQL: {' '.join(sql.split())[:90]!r}")
+            if re.search(r"\b(REGEXP|MATCH)\b", sql):
+                raise TranslatorError(f"{rel}:{node.lineno}: REGEXP/MATCH on a label")
 
 
 # Python-level prefix tests on stored labels (str.startswith).  Modules that handle stored labels are
